@@ -22,6 +22,16 @@ def keywords_for(cfg):
     return out
 
 
+def beq(a, b):
+    """byte-string equality as ONE solver decision (CrossHair's bytes == short-circuits byte by byte, which forks
+    on every position; identifiers of one list are asserted distinct, so the whole comparison is decided at once)"""
+    if len(a) != len(b):
+        return False
+    if len(a) <= 1:
+        return a == b
+    return int.from_bytes(a, "big") == int.from_bytes(b, "big")
+
+
 class ListSet:
     """environment model of the builtin set for DP17's result (membership by equality instead of hashing,
     so that symbolic identifiers are not realised).  Bound as schemes.DP17.Pi.construction.set."""
@@ -33,7 +43,7 @@ class ListSet:
 
     def add(self, x):
         for y in self.items:
-            if y == x:
+            if beq(y, x):
                 return
         self.items.append(x)
 
@@ -45,7 +55,7 @@ class ListSet:
 
     def __contains__(self, x):
         for y in self.items:
-            if y == x:
+            if beq(y, x):
                 return True
         return False
 
@@ -145,7 +155,7 @@ def same(scheme, got, want):
         for w in want:
             found = False
             for g in got:
-                if g == w:
+                if beq(g, w):
                     found = True
                     break
             if not found:
